@@ -338,6 +338,8 @@ func init() {
 				Out: L{reqEqual, respEqual, code, int64(res.Rec.status()), int64(seen.Calls), res.Panic != "", gotDetails, gotMsgOK, int64(res.Rec.headCount())},
 				Tags: append([]string{"restbind:" + call.name, "restbind.kind:" + []string{"rest-client", "chain", "invalid", "error", "unroutable"}[kind]}, extraTags...), Desc: res.Panic})
 		}
+		// google.api.HttpBody bindings
+		httpBodyCases(c, c.n/5)
 	}
 }
 
